@@ -183,7 +183,7 @@ func c12Cover(c *core.Ctx) {
 		label := "bridgeservice.(*BridgeService)." + w.fn
 		dep := ssa.Value(fn.Params[2])
 		// the record that names the answer
-		var base ssa.Value
+
 		fieldBase := func(v ssa.Value, field string) ssa.Value {
 			u, ok := v.(*ssa.UnOp)
 			if !ok {
@@ -195,108 +195,113 @@ func c12Cover(c *core.Ctx) {
 			}
 			return fa.X
 		}
-		okShape := false
+		// every successful return names `<record>.L1InfoTreeIndex` (L2: of the first L1 info leaf with the record's
+		// rollup exit root); collect (use site, record) pairs
+		type answer struct {
+			at   ssa.Instruction // where the record is committed to (the return, or the follow-up lookup)
+			base ssa.Value
+		}
+		var answers []answer
+		okShape := true
+		nSucc := 0
 		for _, r := range core.Returns(fn) {
 			if len(r.Results) != 2 || !isNilConst(r.Results[1]) {
 				continue
 			}
+			nSucc++
 			b := fieldBase(r.Results[0], "L1InfoTreeIndex")
 			if b == nil {
+				okShape = false
 				continue
 			}
 			if w.via == "" {
-				base, okShape = b, true
-			} else if ex, ok := b.(*ssa.Extract); ok && ex.Index == 0 {
-				if cl, ok := ex.Tuple.(*ssa.Call); ok && cl.Call.IsInvoke() && cl.Call.Method.Name() == w.via {
+				answers = append(answers, answer{r, b})
+				continue
+			}
+			ok := false
+			if ex, isEx := b.(*ssa.Extract); isEx && ex.Index == 0 {
+				if cl, isCl := ex.Tuple.(*ssa.Call); isCl && cl.Call.IsInvoke() && cl.Call.Method.Name() == w.via {
 					if bb := fieldBase(cl.Call.Args[0], "RollupExitRoot"); bb != nil {
 						// the success return is reached only when that lookup succeeded
 						nilE := core.NilEdgesRes(fn, core.ErrValueOf(cl), true)
 						if len(nilE) > 0 && core.ReachableWithout(core.After(cl), nilE, func(x ssa.Instruction) bool { return x == ssa.Instruction(r) }) == nil {
-							base, okShape = bb, true
+							answers = append(answers, answer{cl, bb})
+							ok = true
 						}
 					}
 				}
 			}
+			okShape = okShape && ok
 		}
-		if !okShape {
-			c.Violate(rule, label+"#answer", fn.Pos(), "the successful return is not `<record>.L1InfoTreeIndex` of the selected record (or of the first L1 info leaf with that record's rollup exit root)")
+		if !okShape || nSucc == 0 || len(answers) == 0 {
+			c.Violate(rule, label+"#answer", fn.Pos(), "a successful return is not `<record>.L1InfoTreeIndex` of the selected record (or of the first L1 info leaf with that record's rollup exit root)")
 			continue
 		}
-		leaves := phiLeaves(base)
 		allOK := true
 		detail := []string{}
-		for _, lf := range leaves {
-			ex, ok := lf.val.(*ssa.Extract)
-			var call *ssa.Call
-			if ok && ex.Index == 0 {
-				call, _ = ex.Tuple.(*ssa.Call)
-			}
-			if call == nil {
-				allOK = false
-				detail = append(detail, fmt.Sprintf("candidate of unknown origin %T", lf.val))
-				continue
-			}
-			name := core.CallName(call)
-			if call.Call.IsInvoke() {
-				name = call.Call.Method.Name()
-			}
-			// covering edges for this candidate: !(root.Index < dep) where root = GetRootByLER(ctx, cand.<rootField>)
-			isRootIdx := func(v ssa.Value) bool {
-				b := fieldBase(v, "Index")
-				rex, ok := b.(*ssa.Extract)
-				if !ok || rex.Index != 0 {
-					return false
+		nLeaves := 0
+		for _, ans := range answers {
+			for _, lf := range phiLeaves(ans.base) {
+				if isNilConst(lf.val) {
+					continue // an error path's placeholder: dereferencing it cannot yield an index
 				}
-				rc, ok := rex.Tuple.(*ssa.Call)
-				if !ok || !rc.Call.IsInvoke() || rc.Call.Method.Name() != "GetRootByLER" {
-					return false
+				nLeaves++
+				ex, ok := lf.val.(*ssa.Extract)
+				var call *ssa.Call
+				if ok && ex.Index == 0 {
+					call, _ = ex.Tuple.(*ssa.Call)
 				}
-				return fieldBase(rc.Call.Args[1], w.rootField) == lf.val
-			}
-			var cover []core.IfEdge
-			for _, want := range []bool{true, false} {
-				want := want
-				cover = append(cover, core.IfEdgesWhere(fn, func(cond ssa.Value) bool {
-					b, ok := cond.(*ssa.BinOp)
-					if !ok {
+				if call == nil {
+					allOK = false
+					detail = append(detail, fmt.Sprintf("candidate of unknown origin %T", lf.val))
+					continue
+				}
+				name := core.CallName(call)
+				if call.Call.IsInvoke() {
+					name = call.Call.Method.Name()
+				}
+				isRootIdx := func(v ssa.Value) bool {
+					b := fieldBase(v, "Index")
+					rex, ok := b.(*ssa.Extract)
+					if !ok || rex.Index != 0 {
 						return false
 					}
-					l, r := isRootIdx(b.X) && b.Y == dep, isRootIdx(b.Y) && b.X == dep
-					switch b.Op {
-					case token.LSS: // idx < dep: covering on false | dep < idx: covering on true
-						return l && !want || r && want
-					case token.GEQ: // idx >= dep: true | dep >= idx: covering only if ==; not accepted
-						return l && want
-					case token.LEQ: // dep <= idx: true
-						return r && want
-					case token.GTR: // dep > idx: false | idx > dep: true
-						return r && !want || l && want
-					case token.EQL:
-						return (l || r) && want
+					rc, ok := rex.Tuple.(*ssa.Call)
+					if !ok || !rc.Call.IsInvoke() || rc.Call.Method.Name() != "GetRootByLER" {
+						return false
 					}
-					return false
-				}, want)...)
-			}
-			if lf.phi == nil {
-				// the answer is this record on every path: the return itself must be behind a covering edge
-				allOK = false
-				detail = append(detail, name+": single candidate without a loop (unexpected shape)")
-				continue
-			}
-			pred := lf.phi.Block().Preds[lf.idx]
-			to := lf.phi.Block()
-			f := (&core.Walk{
-				Stop:       func(x ssa.Instruction) bool { return x == ssa.Instruction(call) },
-				EdgeOK:     core.Forbid(cover),
-				TargetEdge: func(from *ssa.BasicBlock, si int) bool { return from == pred && from.Succs[si] == to },
-			}).From(core.After(call), nil)
-			if len(cover) == 0 || f != nil {
-				allOK = false
-				detail = append(detail, fmt.Sprintf("%s result becomes the answer without having been compared (root.Index >= depositCount) %s", name, core.PathStr(f)))
-			} else {
-				detail = append(detail, name+": compared")
+					return fieldBase(rc.Call.Args[1], w.rootField) == lf.val
+				}
+				// covering edges: root.Index >= depositCount (or ==), in any written form
+				cover := core.RelEdges(fn, isRootIdx, core.IsValue(dep), token.GEQ)
+				cover = append(cover, core.RelEdges(fn, isRootIdx, core.IsValue(dep), token.EQL)...)
+				cover = append(cover, core.RelEdges(fn, isRootIdx, core.IsValue(dep), token.GTR)...)
+				var f *core.Found
+				if lf.phi == nil {
+					// this record is the answer itself: the use must lie behind a covering edge
+					f = (&core.Walk{
+						Stop:   func(x ssa.Instruction) bool { return x == ssa.Instruction(call) },
+						EdgeOK: core.Forbid(cover),
+						Target: func(x ssa.Instruction) bool { return x == ans.at },
+					}).From(core.After(call), nil)
+				} else {
+					pred := lf.phi.Block().Preds[lf.idx]
+					to := lf.phi.Block()
+					f = (&core.Walk{
+						Stop:       func(x ssa.Instruction) bool { return x == ssa.Instruction(call) },
+						EdgeOK:     core.Forbid(cover),
+						TargetEdge: func(from *ssa.BasicBlock, si int) bool { return from == pred && from.Succs[si] == to },
+					}).From(core.After(call), nil)
+				}
+				if len(cover) == 0 || f != nil {
+					allOK = false
+					detail = append(detail, fmt.Sprintf("%s result becomes the answer without having been compared (root.Index >= depositCount) %s", name, core.PathStr(f)))
+				} else {
+					detail = append(detail, name+": compared")
+				}
 			}
 		}
+		leaves := make([]int, nLeaves)
 		c.Decide(allOK && len(leaves) >= 2, rule, label+"#every-candidate-covers", fn.Pos(), fmt.Sprintf("each record that can become the answer was checked to cover the bridge on the path that selects it: %v", detail))
 	}
 	// the façade the searches compare against hands back the store's root or an error, never a made-up root
